@@ -91,8 +91,18 @@ func stdProblems(h *harness, x *vsched.Exec) []lib.Problem {
 	return probs
 }
 
+// TraceReplay makes replayOne print the schedule it executed.
+var TraceReplay = false
+
 func replayOne(h *harness, choices []int) []lib.Problem {
+	vsched.TraceOn = TraceReplay
 	x := vsched.Run(choices, horizonOf(h), h.Body)
+	vsched.TraceOn = false
+	if TraceReplay {
+		for _, l := range x.Log {
+			fmt.Println("   ", l)
+		}
+	}
 	probs := stdProblems(h, x)
 	if len(probs) == 0 {
 		_, p := h.Check(x)
